@@ -7,6 +7,9 @@ mod adfcalls;
 mod bddx;
 mod c05;
 mod c06_07;
+mod c08;
+mod c09;
+mod c10;
 mod c11;
 mod c12;
 mod c13;
@@ -17,6 +20,7 @@ mod c18;
 mod c19;
 mod c20;
 mod fam;
+mod large;
 mod oracle;
 mod report;
 mod sem;
@@ -31,6 +35,9 @@ pub fn replay_dispatch(prop: &str, case: &serde_json::Value) -> Vec<(String, Str
         "C01" | "C02" | "C03" | "C04" => sem::replay_sem(prop, case),
         "C05" => c05::replay(case),
         "C06" | "C07" => c06_07::replay(prop, case),
+        "C08" => c08::replay(case),
+        "C09" => c09::replay(case),
+        "C10" => c10::replay(case),
         "C11" => c11::replay(case),
         "C13" => c13::replay(case),
         "C14" => c14::replay(case),
@@ -74,6 +81,9 @@ fn main() {
                 "C05" => c05::run_c05(&run),
                 "C06" => c06_07::run_c06(&run),
                 "C07" => c06_07::run_c07(&run),
+                "C08" => c08::run_c08(&run),
+                "C09" => c09::run_c09(&run),
+                "C10" => c10::run_c10(&run),
                 "C11" => c11::run_c11(&run),
                 "C12" => c12::run_c12(&run),
                 "C13" => c13::run_c13(&run),
